@@ -178,6 +178,24 @@ def compile_props(ctx, pid):
     return allok, out
 
 
+def coqchk(ctx, pid):
+    """independent re-check of props/<pid>.vo and everything it depends on (thorough tier); the axioms coqchk reports
+    for the whole dependency cone (standard library included) must be within the allowed list"""
+    r = subprocess.run(["timeout", "2400", "coqchk", "-silent", "-Q", ".", "MD", "-o", f"MD.props.{pid}"], cwd=COQ, capture_output=True, text=True)
+    out = r.stdout + r.stderr
+    m = re.search(r"\* Axioms:(.*?)\* Constants/Inductives relying on type-in-type:(.*?)\* Constants/Inductives relying on unsafe \(co\)fixpoints:(.*?)\* Inductives whose positivity is assumed:(.*)", out, re.S)
+    if r.returncode != 0 or not m:
+        return ctx.ob("coqchk re-check of the property file and its dependency cone", "theorem", False, out[-1500:])
+    axs = [a.strip() for a in m.group(1).split() if a.strip() and a.strip() != "<none>"]
+    axs = [a[4:] if a.startswith("Coq.") else a for a in axs]
+    short = {a.split(".", 1)[1] if a.split(".")[0] in ("Logic", "Reals") else a for a in axs}
+    bad = [a for a in short if a not in ALLOWED_AXIOMS]
+    clean = all("<none>" in m.group(i) for i in (2, 3, 4))
+    ctx.assumptions["coqchk -o (whole dependency cone)"] = sorted(short)
+    return ctx.ob("coqchk re-check of the property file and its dependency cone (axioms within the allowed list; no type-in-type, unsafe fixpoints or assumed positivity)",
+                  "theorem", not bad and clean, out[-1200:])
+
+
 def scan_forbidden(ctx):
     bad = []
     for d in ("lib", "theory", "model", "spec", "gen", "bridge", "proofs", "props", "corr"):
